@@ -35,6 +35,25 @@ Proof. unfold nz4, C09_mul_QS_R. alg. Qed.
 Lemma matmul_QH_spec a b c d w x y z : nz4 a b c d -> nz4 w x y z -> C09_matmul_QH_R a b c d w x y z = Val (qmul [a;b;c;d] [w;x;y;z]).
 Proof. unfold nz4, C09_matmul_QH_R. alg. Qed.
 
+Lemma product_SS_spec a b c d w x y z : nz4 a b c d -> nz4 w x y z -> C09_product_SS_R a b c d w x y z = Val (qmul [a;b;c;d] [w;x;y;z]).
+Proof. unfold nz4, C09_product_SS_R. alg. Qed.
+Lemma mul_SS_spec a b c d w x y z : nz4 a b c d -> nz4 w x y z -> C09_mul_SS_R a b c d w x y z = Val (qmul [a;b;c;d] [w;x;y;z]).
+Proof. unfold nz4, C09_mul_SS_R. alg. Qed.
+Lemma matmul_SS_spec a b c d w x y z : nz4 a b c d -> nz4 w x y z -> C09_matmul_SS_R a b c d w x y z = Val (qmul [a;b;c;d] [w;x;y;z]).
+Proof. unfold nz4, C09_matmul_SS_R. alg. Qed.
+Lemma matmul_QS_spec a b c d w x y z : nz4 a b c d -> nz4 w x y z -> C09_matmul_QS_R a b c d w x y z = Val (qmul [a;b;c;d] [w;x;y;z]).
+Proof. unfold nz4, C09_matmul_QS_R. alg. Qed.
+
+(* normalize(): the ndarray view, .A, (w,x,y,z) and to_array() are all the same versor v/|v| *)
+Lemma normalize_views_spec w x y z : nz4 w x y z ->
+  let n := sqrt (w*w + x*x + y*y + z*z) in
+  C09_normalize_views_R w x y z = Val [w/n; x/n; y/n; z/n;  w/n; x/n; y/n; z/n;  w/n; x/n; y/n; z/n;  w/n; x/n; y/n; z/n].
+Proof.
+  unfold nz4. intros H. cbv zeta. unfold C09_normalize_views_R. cbv zeta. repeat gate_nz.
+  assert (Hn : sqrt (w * w + x * x + y * y + z * z) <> 0) by (apply sqrt_pos_ne0; exact H).
+  val_eq; first [reflexivity | field; exact Hn].
+Qed.
+
 Lemma conj_spec w x y z : nz4 w x y z -> C09_conj_R w x y z = Val (qconj [w;x;y;z]).
 Proof. unfold nz4, C09_conj_R. alg. Qed.
 Lemma q_conj_spec w x y z : C09_q_conj_R w x y z = Val (qconj [w;x;y;z]).
